@@ -17,7 +17,8 @@ _GEN = {
     "C02": (_UPTO_EVAL + ["FuncsPos.lean", "FuncsRoad.lean"], ["FNTAK", "FNOVER", "FNROAD"]),
     "C03": (_UPTO_EVAL + ["FuncsPos.lean", "FuncsRoad.lean", "FuncsMoveGen.lean"], ["FNMOVEGEN"]),
     "C05": (["FuncsTak.lean", "FuncsMove.lean", "FuncsAI.lean"], ["FNMOVE", "FNAI"]),
-    "C14": (["FuncsTak.lean", "FuncsMove.lean", "FuncsSym.lean"], ["FNMOVE", "FNSYM"]),
+    "C14": (_UPTO_EVAL + ["FuncsPos.lean", "FuncsRoad.lean", "FuncsMoveGen.lean", "FuncsSymMove.lean"], ["FNMOVE", "FNSYM", "FNXFORM"]),
+    "C06": (_UPTO_EVAL + ["FuncsPos.lean", "FuncsRoad.lean", "FuncsMoveGen.lean", "FuncsSymMove.lean", "FuncsProve.lean"], ["FNPROVE"]),
     "C15": (["FuncsTak.lean", "FuncsMove.lean", "FuncsSym.lean"], ["FNSYM"]),
     "C20": (["FuncsTak.lean", "FuncsMove.lean", "FuncsFPA.lean"], ["FNMOVE", "FNFPA"]),
     "C08": (_UPTO_EVAL + ["FuncsPos.lean"], ["FNHASH", "FNPOS"]),
